@@ -2,8 +2,9 @@
 """keep_seed.py <PROP> <i> <caught:yes|no> "<what I ran / observed>"  -- store a confirmed seeded change under /verif/seeded/"""
 import json, os, shutil, sys
 P, I, caught, ran = sys.argv[1:5]
-src = f"/tmp/seed-{P}-out/{I}"
-dst = f"/verif/seeded/{P}-{I}"
+pfx = os.environ.get("SEEDPFX", "seed")
+src = f"/tmp/{pfx}-{P}-out/{I}"
+dst = f"/verif/seeded/{P}-{I}" if pfx == "seed" else f"/verif/seeded/{P}-r2-{I}"
 os.makedirs(dst, exist_ok=True)
 shutil.copy(f"{src}/patch.diff", f"{dst}/patch.diff")
 shutil.copy(f"{src}/demo.py", f"{dst}/demo.py")
